@@ -363,6 +363,8 @@ def comprehension(self, n, env, kind):
     if kind in ('list', 'tuple', 'set') :
       if hint is None:
         s0 = self.sort_of(el_v)
+        if s0 is None and getattr(self.spec, 'comp_elem_hint', None) is not None:
+          s0 = self.spec.comp_elem_hint   # e.g. a record sort for comprehensions that build tuples
         if s0 is None:
           raise OutsideSubset('comprehension element of unknown sort')
         hint = SeqOf(s0) if kind in ('list', 'tuple') else SetOf(s0)
